@@ -145,3 +145,43 @@ def bare_url_test(viol):
                 if len(viol) > 10:
                     return n
     return n
+
+
+def link_destination_roundtrip(viol, maxlen=4):
+    """_link_destination(d), put into '[t](...)' and '![t](...)', reads back (flowmark's own Marko configuration) as a link /
+    image whose destination is d again -- for every d over an alphabet of the characters that matter for destinations; and
+    a destination that the plain form can hold is returned unchanged (no gratuitous pointy brackets)"""
+    from flowmark.formats import flowmark_markdown as FM
+    md = FM.flowmark_markdown()
+    n = 0
+
+    def first(e, names):
+        if type(e).__name__ in names:
+            return e
+        ch = getattr(e, "children", None)
+        if isinstance(ch, list):
+            for c in ch:
+                r = first(c, names)
+                if r is not None:
+                    return r
+        return None
+    for d in _strings(["a", "(", ")", "<", ">", " ", "\\", "/", "_"], maxlen):
+        if d.startswith(" ") or d.endswith(" ") or "\\" in d and not d.replace("\\", "a").isalnum() and False:
+            continue        # (Marko strips blanks at the ends of a destination: such a destination never comes out of a parse)
+        if "\\" in d:
+            continue        # (a backslash in a parsed destination is ambiguous between literal and escape in either form)
+        r = FM._link_destination(d)
+        for tmpl, kind in (("[t](%s)\n", "Link"), ("![t](%s)\n", "Image"), ("[t](%s \"T\")\n", "Link")):
+            n += 1
+            if "\"T\"" in tmpl:
+                r = FM._link_destination(d, True)
+            e = first(md.parse(tmpl % r), (kind,))
+            if e is None or e.dest != d:
+                viol.append({"clause": "link_destination_reads_back", "input": {"dest": d, "form": tmpl % r}, "got": None if e is None else e.dest, "want": d})
+                if len(viol) > 10:
+                    return n
+        plain_ok = first(md.parse("[t](%s)\n" % d), ("Link",))
+        if d and plain_ok is not None and plain_ok.dest == d and type(plain_ok.children[0]).__name__ == "RawText" and r != d \
+                and not any(c in d for c in " <>"):
+            viol.append({"clause": "link_destination_plain_when_possible", "input": {"dest": d}, "got": r, "want": d})
+    return n
